@@ -101,9 +101,12 @@ RE_META = re.compile(
     # a meta tag which has, in any order and possibly among other
     # attributes, ``http-equiv="Content-Type"`` and a ``content``
     # attribute that names a charset
+    # (a quoted value may contain ``>``)
     r'<meta(?=\s)'
-    r'(?=[^>]*?\shttp-equiv\s*=\s*["\']?Content-Type["\']?[\s/>])'
-    r'[^>]*?\scontent\s*=\s*["\']?([^;"\'>]+);'
+    r'(?=(?:[^>"\']|"[^"]*"|\'[^\']*\')*?'
+    r'\shttp-equiv\s*=\s*["\']?Content-Type["\']?[\s/>])'
+    r'(?:[^>"\']|"[^"]*"|\'[^\']*\')*?'
+    r'\scontent\s*=\s*["\']?([^;"\'>]+);'
     r'\s*charset\s*=\s*["\']?([^"\'\s/>;]+)',
     re.IGNORECASE
 )
